@@ -225,8 +225,10 @@ func (m *Machine) nondetIntrinsic(name string, args []Val) (Val, bool) {
 		return nil, true
 	case "VerifShared":
 		f := args[0]
+		m.quietFS = true // steps of the two runs are not part of the compared trace
 		m.callValue(f, []Val{goInt(0)})
 		m.callValue(f, []Val{goInt(1)})
+		m.quietFS = false
 		return nil, true
 	case "VerifFreeze":
 		m.freeze(args[0])
